@@ -66,6 +66,7 @@ def failures(pid, tier, replay):
 
 
 # ---------------------------------------------------------------------------
+import tempfile
 import json, os, shutil, subprocess, time
 import fnlib, nbuild
 from common import *
@@ -296,7 +297,7 @@ def _log_check(pid, tier, replay, kind, model, mc_cfg, trace_spec, seqfams, gen_
         found, nviol = [], 0
         if replay:
             rp = json.load(open(replay))
-            seqs = [rp["sequence"]]
+            seqs = [rp["sequence"]] if "sequence" in rp else []
             mc = {"distinct": 0, "states": 0}
         else:
             mc = fnlib.mc_run(model, mc_cfg, wd, xmx="16g")
@@ -350,10 +351,29 @@ def _log_check(pid, tier, replay, kind, model, mc_cfg, trace_spec, seqfams, gen_
                     ev = json.loads(lines[v["l"] - 1])
                     p = replay or save_replay(pid, "%s-%d-l%d" % (os.path.basename(tp), v["sc"], v["l"]), {"property": pid, "sequence": sq, "violation": v})
                     found.append((p, "%s (operation %s)" % (v["what"], json.dumps({k: x for k, x in ev.items() if k not in ("bytes", "entries", "table")})[:200])))
+        known_hits = {}
+        dead = None
+        if kind == "blog" and (not replay or json.load(open(replay)).get("deadpath")):
+            known = {k["id"]: k for k in load_known_findings() if k.get("status") == "open" and pid in k.get("properties", [])}
+            dead = _deadpath_conformance(pid, wd)
+            for trigger, lost, changed in dead:
+                if not lost and not changed:
+                    continue
+                # signature of KF-RESTAT-RECOMPACT-NO-MANIFEST: -t restat, and only the output that is in the manifest but not on disk
+                if trigger == "restat" and lost == ["m"] and not changed and "KF-RESTAT-RECOMPACT-NO-MANIFEST" in known:
+                    w, n_ = known_hits.get("KF-RESTAT-RECOMPACT-NO-MANIFEST", (known["KF-RESTAT-RECOMPACT-NO-MANIFEST"]["what"], 0))
+                    known_hits["KF-RESTAT-RECOMPACT-NO-MANIFEST"] = (w, n_ + 1)
+                    continue
+                nviol += 1
+                p = replay or save_replay(pid, "deadpath-%s" % trigger, {"property": pid, "deadpath": True, "trigger": trigger, "lost": lost, "changed": changed})
+                found.append((p, "recompaction by '%s' lost the records of %s / changed the command hashes of %s (outputs still in the manifest or on disk)" % (trigger, lost, changed)))
+        if replay and json.load(open(replay)).get("deadpath"):
+            return report(pid, found, known_hits)
         if not replay:
             write_evidence(pid, tier, "model_checking", {
                 "states": mc["distinct"] + tstates, "transitions": mc["states"] + tstates,
                 "traces_validated_against_impl": stats.get("seqs", 0),
+                "dead_path_conformance": [{"trigger": t_, "lost": l_, "changed_hashes": c_} for t_, l_, c_ in dead] if dead is not None else None,
                 "samples": seqs[:2] + seqs[-1:],
                 "evaluations": stats.get("ops", 0), "distinct_nontrivial": stats.get("seqs", 0),
                 "rule": "operation sequences (record / tear at every byte offset of the tail / append behind the tear / reopen / recompact / restat / version) "
@@ -362,9 +382,47 @@ def _log_check(pid, tier, replay, kind, model, mc_cfg, trace_spec, seqfams, gen_
                 "design_states": mc["distinct"], "operations": stats.get("ops", 0), "loads_checked": stats.get("loads", 0), "tears": stats.get("tears", 0),
                 "impl_conformance": {"rejected": impl_drift}, "exhaustive": False,
             }, time.time() - t0, nviol, ["TLC", "the property-level clauses of the *Ref module", "the harness truncates/damages files exactly as logged"])
-        return report(pid, found, {})
+        return report(pid, found, known_hits)
     finally:
         shutil.rmtree(wd, ignore_errors=True)
+
+
+def _deadpath_conformance(pid, wd):
+    """The clause "recompaction keeps the latest record of every output that is still in the manifest or on disk, -t restat changes only
+    the recorded mtimes" on the real binary: whether a log path is dead is decided by NinjaMain::IsPathDead (ninja.cc), which the log
+    harness replaces by a stub.  Four outputs - in the manifest and on disk (k), left the manifest but on disk (g), left the manifest
+    and deleted (x), in the manifest but deleted (m) - a log padded past the recompaction threshold with duplicate records, and the three
+    invocations that can recompact: a build, -t recompact, -t restat.  Reference (BuildLogRef!DeadPath): only x may lose its record."""
+    ninja = nbuild.build("dbg", ["ninja"])["ninja"]
+    out = []   # (trigger, lost outputs, changed hashes)
+    for trigger in ("build", "recompact", "restat"):
+        d = tempfile.mkdtemp(dir=wd, prefix="dead-")
+        man = "rule cp\n  command = cp $in $out\n" + "".join("build %s: cp s\n" % o for o in "kgxm")
+        open(os.path.join(d, "build.ninja"), "w").write(man)
+        open(os.path.join(d, "s"), "w").write("hi\n")
+        r = subprocess.run([ninja, "-C", d], capture_output=True, text=True)
+        if r.returncode != 0:
+            raise Broken("dead-path scenario: first build failed: " + r.stdout[-300:])
+        open(os.path.join(d, "build.ninja"), "w").write("rule cp\n  command = cp $in $out\nbuild k: cp s\nbuild m: cp s\n")
+        os.remove(os.path.join(d, "x"))
+        os.remove(os.path.join(d, "m"))
+        lp = os.path.join(d, ".ninja_log")
+        lines = open(lp).read().split("\n")
+        before = {l.split("\t")[3]: l.split("\t")[4] for l in lines if l and not l.startswith("#")}
+        krec = [l for l in lines if l.split("\t")[3:4] == ["k"]][0]
+        open(lp, "a").write("".join(krec + "\n" for _ in range(160)))
+        args = {"build": ["k"], "recompact": ["-t", "recompact"], "restat": ["-t", "restat"]}[trigger]
+        r = subprocess.run([ninja, "-C", d] + args, capture_output=True, text=True)
+        if r.returncode != 0:
+            raise Broken("dead-path scenario: %s failed: %s" % (trigger, r.stdout[-300:]))
+        after_lines = [l for l in open(lp).read().split("\n") if l and not l.startswith("#")]
+        if len(after_lines) > 20:
+            raise Broken("dead-path scenario: the padded log was not recompacted by %s (%d records)" % (trigger, len(after_lines)))
+        after = {l.split("\t")[3]: l.split("\t")[4] for l in after_lines}
+        lost = sorted(o for o in "kgm" if o not in after)
+        changed = sorted(o for o in "kgm" if o in after and after[o] != before[o])
+        out.append((trigger, lost, changed))
+    return out
 
 
 @reg("C08")
